@@ -2309,9 +2309,18 @@ def r0510(P, u, E, rep, copies=None):
 # constant) reaches at most one operand evaluation per path and the value of that operand is returned unscaled; a conditional
 # evaluates its condition label-free and then exactly the arm the condition selects
 # ------------------------------------------------------------------------------------------------
-def _truth(ctx, v):
-    """truth value the path established for the opaque value v (True / False / None)"""
-    k = vkey(v)
+def _subkeys(k, out):
+    if isinstance(k, tuple):
+        if k and k[0] == 'term':
+            out.add(k)
+        for x in k:
+            _subkeys(x, out)
+
+
+def _truth(ctx, v, _key=None, _depth=0):
+    """truth value the path established for the opaque value v (True / False / None); sees through the tests `x != 0`, `x == 0`, `!x`
+    that a helper returning bool (and the caller testing that bool again) puts around the value"""
+    k = vkey(v) if _key is None else _key
     t = ctx.facts.get(k)
     if t is not None:
         return bool(t)
@@ -2322,11 +2331,26 @@ def _truth(ctx, v):
         return True
     if 0 in ctx.neq.get(k, ()):
         return True
-    for fk, tv in ctx.facts.items():
-        if isinstance(fk, tuple) and len(fk) == 4 and fk[0] == 'term' and str(fk[1]).split(':')[0] in ('==', '!='):
-            if (fk[2] == k and fk[3] == 0) or (fk[3] == k and fk[2] == 0):
-                ne = str(fk[1]).split(':')[0] == '!='
-                return bool(tv) if ne else not bool(tv)
+    if _depth > 4:
+        return None
+    terms = set()
+    for d in (ctx.facts, ctx.bounds, ctx.neq):
+        for fk in d:
+            _subkeys(fk, terms)
+    for fk in terms:
+        op = str(fk[1]).split(':')[0]
+        inner = None
+        if op in ('==', '!=') and len(fk) == 4:
+            zero = lambda z: isinstance(z, (int, float)) and not isinstance(z, bool) and z == 0
+            if (fk[2] == k and zero(fk[3])) or (fk[3] == k and zero(fk[2])):
+                inner = op == '!='
+        elif op == '!' and len(fk) == 3 and fk[2] == k:
+            inner = False
+        if inner is None or fk == k:
+            continue
+        tv = _truth(ctx, None, fk, _depth + 1)
+        if tv is not None:
+            return tv if inner else not tv
     return None
 
 
@@ -2398,7 +2422,9 @@ def r0511(P, u, E, cat, rep):
     for fn in ('eval2', 'eval_rval'):
         where = _w(u, fn)
         for kind in kinds:
-            it = TInterp(P, u, {'cut': {'eval2': h('eval2'), 'eval_rval': h('eval_rval')}, 'opaque': ['add_type', 'eval_double'], 'track_stores': True})
+            # eval_double takes no label slot: an evaluation through it is label-free by construction; helpers of the unit (eval, or a
+            # truth-value helper around eval / eval_double) are interpreted inline, so what they evaluate shows up as these records
+            it = TInterp(P, u, {'cut': {'eval2': h('eval2'), 'eval_rval': h('eval_rval'), 'eval_double': h('eval_double', 'double')}, 'opaque': ['add_type'], 'track_stores': True})
             res = it.explore(fn, mk_for(kind, ('ptr', 'int', 'uint', 'long', 'ulong'), True))
             key = '%s:%s:%s' % (U, fn, kind)
             for ctx, out in res:
